@@ -330,6 +330,11 @@ func (w *MarkdownWriter) formatRunText(run *document.Run) string {
 
 	// 检查格式属性
 	if run.Properties != nil {
+		// 处理代码样式（反引号必须在最内层，否则强调标记会成为代码文本）
+		if w.isCodeStyle(run.Properties) {
+			text = "`" + text + "`"
+		}
+
 		// 检查粗体
 		if run.Properties.Bold != nil {
 			if run.Properties.Italic != nil {
@@ -344,11 +349,6 @@ func (w *MarkdownWriter) formatRunText(run *document.Run) string {
 		// 检查删除线
 		if run.Properties.Strike != nil {
 			text = "~~" + text + "~~" // 删除线
-		}
-
-		// 处理代码样式
-		if w.isCodeStyle(run.Properties) {
-			text = "`" + text + "`"
 		}
 	}
 
